@@ -114,6 +114,9 @@ def runSem (j : Json) : Json :=
     match parseBlueprint (jgetD j "printed") with
     | .error e => Json.mkObj [("id", id), ("elab", "ok"), ("blueprint_error", e)]
     | .ok bp =>
+      -- certificate of the network partition (hypothesis of Facto.components_exact / mem_prodOf_iff)
+      if !bp.componentsClosed then
+        Json.mkObj [("id", id), ("elab", "ok"), ("certificate_error", "Blueprint.componentsClosed is false: the union-find ids do not close over the printed wires")] else
       let ids := ((jgetD j "entity_ids").getArr?.toOption.getD #[]).map (fun x => x.getStr?.toOption.getD "")
       -- entities read through `.output` are the circuit's declared sources
       let placed0 := ((jgetD j "placed").getArr?.toOption.getD #[]).toList.map (fun x => x.getStr?.toOption.getD "")
